@@ -22,27 +22,35 @@ from ..core import require, require_close, require_equal
 ID = "C40"
 RULE = (
     "Hypothesis draws either a SecondOrderTensor on 1..6 cells from cell-wise SPD matrices Q diag(lam) Q^T (lam in "
-    "[0.1, 10], Q from three Euler angles; constructor forms: all six components / 2-d (kxx, kyy, kxy) / diagonal / "
-    "isotropic), a rotation matrix (Euler angles, arbitrary or multiples of pi/2), a cell subset (unique indices, "
-    "sorted or not) and an entry to mutate; or a FourthOrderTensor from mu in [0.5, 3], lmbda in [0, 3] on 1..6 cells "
-    "with 0..2 extra fields whose 9x9 matrices have the major and minor symmetries. Oracle: values[i,j] == values[j,i] "
-    "exactly and the passed components sit in their entries; rotate(R) == R K R^T (1e-12 x max|K|), stays symmetric "
-    "and keeps the eigenvalues lam; fourth order: 9x9 layout equals lmbda d_ij d_kl + mu (d_ik d_jl + d_il d_jk) "
-    "(+ extra fields) entrywise, major and both minor symmetries exact; restrict_to_cells(c) == values[..., c] (and "
-    "mu, lmbda, extra fields [c]) leaving the original untouched; copy() equal, of the same type, and unaffected by "
-    "in-place mutation of the original (and vice versa). Non-trivial = >= 2 cells; distinct = hash of spec."
+    "[0.1, 10], or strongly anisotropic lam = m 10^-k with ratio up to 1e6; Q from three Euler angles; constructor "
+    "forms: all six components / 2-d (kxx, kyy, kxy) / diagonal / isotropic), a rotation matrix (Euler angles, "
+    "arbitrary or multiples of pi/2), a cell subset (unique indices, sorted or not) and an entry to mutate; or a "
+    "FourthOrderTensor from mu in [0.5, 3], lmbda in [0, 3] on 1..6 cells with 0..2 extra fields whose 9x9 matrices "
+    "have the major and minor symmetries. In both kinds every parameter is multiplied by a unit factor 10^e, e = 0 "
+    "or in -18..-9 (scaled-small: permeability in m^2) or 6..12 (scaled-large: stiffness in Pa). Oracle: "
+    "values[i,j] == values[j,i] exactly and the passed components sit in their entries; rotate(R) == R K R^T "
+    "componentwise to 1e-12 x max|K| of that cell, stays symmetric (same tolerance) and keeps the eigenvalues "
+    "(1e-9 x largest eigenvalue of the cell) - all tolerances relative to the cell's own magnitude, none absolute; "
+    "fourth order: 9x9 layout equals lmbda d_ij d_kl + mu (d_ik d_jl + d_il d_jk) (+ extra fields) entrywise "
+    "(1e-12 x max entry), major and both minor symmetries exact; restrict_to_cells(c) == values[..., c] (and mu, "
+    "lmbda, extra fields [c]) leaving the original untouched; copy() equal, of the same type, and unaffected by "
+    "in-place mutation of the original (and vice versa; the mutation is sized to the tensor's magnitude). "
+    "Non-trivial = >= 2 cells; distinct = hash of spec."
 )
 BUDGET = {"quick": {"cases": 4000, "seconds": 40}, "thorough": {"cases": 250000, "seconds": 1100}}
 TECHNIQUE = "property-based testing (Hypothesis): algebraic oracles (symmetry, similarity transform, index selection, aliasing)"
-LEVEL_TEXT = ("Exploration: thousands of generated cell-wise SPD permeability tensors, Lame parameter arrays (with "
-              "custom extra fields), rotations and cell subsets per run; symmetry, entry placement, the fourth-order "
+LEVEL_TEXT = ("Exploration: thousands of generated cell-wise SPD permeability tensors (well conditioned and strongly "
+              "anisotropic, in unit systems from 1e-18 to 1e12), Lame parameter arrays (with custom extra fields), "
+              "rotations and cell subsets per run; symmetry, entry placement, the fourth-order "
               "layout formula, rotate(R) = R K R^T with preserved eigenvalues, restrict_to_cells and the independence "
               "of copies are compared with direct numpy expressions.")
-LEVEL_NOTE = ("Up to 6 cells; well conditioned tensors (eigenvalues in [0.1, 10]); proper rotations only. Tolerance "
-              "1e-12 relative for rotated values, exact equality elsewhere. Finds violations, does not prove absence.")
+LEVEL_NOTE = ("Up to 6 cells; eigenvalue ratios up to 1e6 within a cell, overall magnitudes 1e-19 .. 1e13 (unit "
+              "factors); proper rotations only. Tolerances are relative to the magnitude of the tensor in each cell "
+              "(1e-12 componentwise, 1e-9 for eigenvalues), exact equality elsewhere. Finds violations, does not "
+              "prove absence.")
 DESIGN_REF = "DESIGN.md section 4, C40"
 ASSUMPTIONS = [
-    "second-order tensors are built from symmetric positive definite matrices with eigenvalues in [0.1, 10]",
+    "second-order tensors are built from symmetric positive definite matrices with eigenvalue ratio <= 1e6 per cell, in any unit system (overall factor 1e-18 .. 1e12)",
     "R is a proper rotation (orthogonal, det +1)",
     "cell subsets are arrays of unique integer indices (sorted or unsorted), as passed by mpfa / mpsa",
     "extra fields of the fourth-order tensor come with 9x9 matrices that have the major and minor symmetries (as in the repository's tests); the pair index of the 9x9 layout is 3*i + j",
@@ -51,12 +59,18 @@ REQUIRED = {
     "second": 0.3, "fourth": 0.3, "form-full": 0.08, "form-2d": 0.05, "form-diag": 0.05, "form-iso": 0.05,
     "rot-generic": 0.1, "rot-quarter-turns": 0.05, "multi-cell": 0.5, "restrict-unsorted": 0.1,
     "restrict-sorted": 0.1, "extra-fields": 0.1, "no-extra-fields": 0.1,
+    "scaled-small": 0.15, "scaled-large": 0.08, "scaled-unit": 0.15, "anisotropic": 0.05,
 }
 
 # ----------------------------------------------------------------------------- strategies
 _ang = st.one_of(st.sampled_from([0.0, math.pi / 2, math.pi, -math.pi / 2]),
                  st.floats(-math.pi, math.pi, allow_nan=False, allow_subnormal=False))
 _lam = st.one_of(st.sampled_from([0.1, 1.0, 10.0]), st.floats(0.1, 10.0, allow_nan=False))
+# strongly anisotropic cells: principal values m * 10^-k, m in [1, 10), k in 0..5  (ratio <= 1e6)
+_lam_aniso = st.builds(lambda m, k: m * 10.0 ** (-k), st.floats(1.0, 9.999, allow_nan=False), st.integers(0, 5))
+# unit factor 10^e applied to every parameter of the tensor (permeability in m^2, stiffness in Pa, ...)
+_scale_exp = st.sampled_from(["small", "small", "unit", "unit", "large"]).flatmap(
+    lambda c: st.integers(-18, -9) if c == "small" else (st.integers(6, 12) if c == "large" else st.just(0)))
 
 
 def _subset(draw, nc):
@@ -73,8 +87,9 @@ def _second(draw):
     nc = draw(st.integers(1, 6))
     form = draw(st.sampled_from(["full", "full", "2d", "diag", "iso"]))
     cells = []
+    aniso = draw(st.integers(0, 2)) == 0
     for _ in range(nc):
-        lam = [draw(_lam) for _ in range(3)]
+        lam = [draw(_lam_aniso if aniso else _lam) for _ in range(3)]
         ang = [draw(_ang) for _ in range(3)]
         cells.append({"lam": lam, "ang": ang})
     quarter = draw(st.integers(0, 3)) == 0
@@ -83,7 +98,7 @@ def _second(draw):
     else:
         rot = [draw(_ang) for _ in range(3)]
     return {"kind": "second", "form": form, "cells": cells, "rot": rot, "quarter": quarter,
-            "restrict": _subset(draw, nc),
+            "scale_exp": draw(_scale_exp), "restrict": _subset(draw, nc),
             "mut": [draw(st.integers(0, 2)), draw(st.integers(0, 2)), draw(st.integers(0, nc - 1))]}
 
 
@@ -97,7 +112,8 @@ def _fourth(draw):
         extra.append({"A": [draw(st.integers(-2, 2)) for _ in range(6)],
                       "B": [draw(st.integers(-2, 2)) for _ in range(6)],
                       "field": [draw(st.floats(-2.0, 2.0, allow_nan=False, allow_subnormal=False)) for _ in range(nc)]})
-    return {"kind": "fourth", "mu": mu, "lmbda": lm, "extra": extra, "restrict": _subset(draw, nc),
+    return {"kind": "fourth", "mu": mu, "lmbda": lm, "extra": extra, "scale_exp": draw(_scale_exp),
+            "restrict": _subset(draw, nc),
             "mut": [draw(st.integers(0, 8)), draw(st.integers(0, 8)), draw(st.integers(0, nc - 1))]}
 
 
@@ -112,6 +128,14 @@ def _rot(ang):
     ry = np.array([[math.cos(b), 0.0, math.sin(b)], [0.0, 1.0, 0.0], [-math.sin(b), 0.0, math.cos(b)]])
     rx = np.array([[1.0, 0.0, 0.0], [0.0, math.cos(c), -math.sin(c)], [0.0, math.sin(c), math.cos(c)]])
     return rz @ ry @ rx
+
+
+def _scale_labels(sexp):
+    if sexp <= -9:
+        return ["scaled-small"]
+    if sexp >= 6:
+        return ["scaled-large"]
+    return ["scaled-unit"]
 
 
 def _sym3(v):
@@ -134,11 +158,13 @@ def _check_copy_independent(t, mut, tag, fields=()):
     snap = t.values.copy()
     snap_f = {f: np.array(getattr(t, f), copy=True) for f in fields}
     i, j, k = mut
+    # a change that is visible at the magnitude of this tensor
+    bump = float(np.max(np.abs(snap))) if snap.size and np.max(np.abs(snap)) > 0 else 1.0
     # mutate the original in place
-    t.values[i, j, k] += 1.0
+    t.values[i, j, k] += bump
     t.values *= 2.0
     for f in fields:
-        getattr(t, f)[k] += 1.0
+        getattr(t, f)[k] += bump
     require_equal(c.values, snap, f"{tag}-copy-aliased", "copy().values changed when the original was mutated")
     for f in fields:
         require_equal(getattr(c, f), snap_f[f], f"{tag}-copy-aliased-field", f"copy().{f} changed with the original")
@@ -146,9 +172,9 @@ def _check_copy_independent(t, mut, tag, fields=()):
     t.values[...] = snap
     for f in fields:
         getattr(t, f)[...] = snap_f[f]
-    c.values[i, j, k] -= 3.0
+    c.values[i, j, k] -= 3.0 * bump
     for f in fields:
-        getattr(c, f)[k] -= 3.0
+        getattr(c, f)[k] -= 3.0 * bump
     require_equal(t.values, snap, f"{tag}-copy-aliased-back", "original changed when the copy was mutated")
     for f in fields:
         require_equal(getattr(t, f), snap_f[f], f"{tag}-copy-aliased-back-field", f"original .{f} changed with the copy")
@@ -167,9 +193,9 @@ def _check_restrict(t, cells, tag, fields=()):
     for f in fields:
         require_equal(getattr(t, f), snap_f[f], f"{tag}-restrict-mutates-field", f"restrict_to_cells changed original .{f}")
     # the restriction owns its memory
-    r.values[...] = -7.0
+    r.values[...] = -7.0 * (float(np.max(np.abs(snap))) or 1.0)
     for f in fields:
-        getattr(r, f)[...] = -7.0
+        getattr(r, f)[...] = -7.0 * (float(np.max(np.abs(snap))) or 1.0)
     require_equal(t.values, snap, f"{tag}-restrict-aliased", "writing into the restricted tensor changed the original")
     for f in fields:
         require_equal(getattr(t, f), snap_f[f], f"{tag}-restrict-aliased-field", f"restricted .{f} aliases the original")
@@ -187,6 +213,8 @@ def _check_second(s):
 
     form = s["form"]
     nc = len(s["cells"])
+    sexp = int(s.get("scale_exp", 0))
+    factor = 10.0 ** sexp
     K = np.zeros((3, 3, nc))
     lam = np.zeros((3, nc))
     for c, cell in enumerate(s["cells"]):
@@ -199,6 +227,7 @@ def _check_second(s):
             q = _rot([cell["ang"][0], 0.0, 0.0])
         else:
             q = _rot(cell["ang"])
+        l = [li * factor for li in l]
         k = q @ np.diag(l) @ q.T
         k = 0.5 * (k + k.T)
         if form == "2d":
@@ -214,7 +243,9 @@ def _check_second(s):
              "diag": ["kxx", "kyy", "kzz"], "iso": ["kxx"]}[form]
     t = pp.SecondOrderTensor(**{k: comp[k] for k in given})
 
-    labels = ["second", f"form-{form}", "rot-quarter-turns" if s["quarter"] else "rot-generic"]
+    labels = ["second", f"form-{form}", "rot-quarter-turns" if s["quarter"] else "rot-generic"] + _scale_labels(sexp)
+    if form in ("full", "2d", "diag") and any(max(c["lam"]) / min(c["lam"]) >= 1e3 for c in s["cells"]):
+        labels.append("anisotropic")
     if nc >= 2:
         labels.append("multi-cell")
     labels.append("restrict-sorted" if s["restrict"] == sorted(s["restrict"]) else "restrict-unsorted")
@@ -232,27 +263,29 @@ def _check_second(s):
             require_equal(v[i, j], np.zeros(nc), "second-default-offdiag", f"{name} not given but values[{i},{j}] != 0")
 
     K0 = v.copy()
-    scale = float(np.max(np.abs(K0)))
     if form in ("2d", "iso"):
         # entries that were not passed are filled by documented defaults which this check does not demand; take
         # the reference eigenvalues of those forms from the (symmetric, verified) values before the rotation
         for c in range(nc):
             lam[:, c] = np.linalg.eigvalsh(K0[:, :, c])
 
-    # rotation: similarity transform, done on a copy (as rt0 / mvem do)
+    # rotation: similarity transform, done on a copy (as rt0 / mvem do).  Every tolerance is relative to the
+    # magnitude of the tensor of that cell (its largest entry / largest eigenvalue), never absolute: a tensor is a
+    # physical quantity and its numbers depend on the unit system.
     R = _rot(s["rot"])
     tr = t.copy()
     tr.rotate(R)
     require(tr.values.shape == (3, 3, nc), "rotate-shape", f"{tr.values.shape}")
     for c in range(nc):
+        cs = float(np.max(np.abs(K0[:, :, c])))
         exp = R @ K0[:, :, c] @ R.T
         got = tr.values[:, :, c]
-        require_close(got, exp, "rotate-similarity", rtol=1e-12, atol=0.0, scale=scale,
-                      what=f"rotate(R) vs R K R^T, cell {c}")
-        require_close(got, got.T, "rotate-symmetric", rtol=1e-12, atol=0.0, scale=scale,
+        require_close(got, exp, "rotate-similarity", rtol=1e-12, atol=0.0, scale=cs,
+                      what=f"rotate(R) vs R K R^T componentwise, cell {c}, max|K| = {cs:.3e}")
+        require_close(got, got.T, "rotate-symmetric", rtol=1e-12, atol=0.0, scale=cs,
                       what=f"rotated tensor not symmetric, cell {c}")
         ev = np.linalg.eigvalsh(0.5 * (got + got.T))
-        require_close(ev, lam[:, c], "rotate-eigenvalues", rtol=1e-12, atol=0.0, scale=scale,
+        require_close(ev, lam[:, c], "rotate-eigenvalues", rtol=1e-9, atol=0.0, scale=float(np.max(np.abs(lam[:, c]))),
                       what=f"eigenvalues after rotate, cell {c}")
     require_equal(t.values, K0, "rotate-copy-aliased", "rotating a copy changed the original")
 
@@ -264,16 +297,18 @@ def _check_second(s):
 def _check_fourth(s):
     import porepy as pp
 
-    mu = np.array(s["mu"], dtype=float)
-    lm = np.array(s["lmbda"], dtype=float)
+    sexp = int(s.get("scale_exp", 0))
+    factor = 10.0 ** sexp
+    mu = np.array(s["mu"], dtype=float) * factor
+    lm = np.array(s["lmbda"], dtype=float) * factor
     nc = mu.size
     other = {}
     for n, e in enumerate(s["extra"]):
-        other[f"field_{n}"] = (_extra_mat(e), np.array(e["field"], dtype=float))
+        other[f"field_{n}"] = (_extra_mat(e), np.array(e["field"], dtype=float) * factor)
     t = pp.FourthOrderTensor(mu.copy(), lm.copy(), other_fields={k: (m.copy(), f.copy()) for k, (m, f) in other.items()}
                              if other else None)
 
-    labels = ["fourth", "extra-fields" if other else "no-extra-fields"]
+    labels = ["fourth", "extra-fields" if other else "no-extra-fields"] + _scale_labels(sexp)
     if nc >= 2:
         labels.append("multi-cell")
     labels.append("restrict-sorted" if s["restrict"] == sorted(s["restrict"]) else "restrict-unsorted")
